@@ -6,7 +6,7 @@ open Model
 let coerce_vars (line : string) : string =
   match String.split_on_char ' ' line with
   | [sch; doc; vals] ->
-    let s = Lib_run.with_builtin_scalars (Lib_schema.schema_of_string sch) in
+    let s = Lib_xrun.with_builtin_scalars (Lib_schema.schema_of_string sch) in
     let d = Lib_ast.document_of_string doc in
     let values = match Lib_json.json_of_string vals with JObj m -> m | _ -> failwith "variables object" in
     (match cv_first_operation d with
@@ -30,7 +30,7 @@ let coerce_vars (line : string) : string =
 let c28_oracle (line : string) : string =
   match String.split_on_char ' ' line with
   | [sch; doc; vals; res] ->
-    let s = Lib_run.with_builtin_scalars (Lib_schema.schema_of_string sch) in
+    let s = Lib_xrun.with_builtin_scalars (Lib_schema.schema_of_string sch) in
     let d = Lib_ast.document_of_string doc in
     let obj x = match Lib_json.json_of_string x with JObj m -> m | _ -> failwith "object" in
     let values = obj vals and r = obj res in
